@@ -21,7 +21,7 @@ use async_graphql::parser::types::ExecutableDocument;
 use async_graphql::{Context, EmptyMutation, EmptySubscription, Object, Request, Schema};
 use serde_json::{json, Value};
 use sha2::{Digest, Sha256};
-use std::collections::{BTreeSet, HashMap, VecDeque};
+use std::collections::{HashMap, VecDeque};
 use std::sync::atomic::{AtomicU64, Ordering};
 use std::sync::{Arc, Mutex};
 
@@ -225,6 +225,7 @@ fn alphabet(ds: &[Doc]) -> Vec<Event> {
     }
     let same_prefix = String::from_utf8(same_prefix).unwrap();
     v.push(ev("hash-only(H1[..8]+other)".into(), "", Some(pq(json!(1), json!(same_prefix.clone()))), Sem::HashOnly { hash: same_prefix.clone() }));
+    v.push(ev("register(D1,H1[..8]+other)".into(), ds[0].text, Some(pq(json!(1), json!(same_prefix.clone()))), Sem::Mismatch));
     v.push(ev("register(D2,H1[..8]+other)".into(), ds[1].text, Some(pq(json!(1), json!(same_prefix))), Sem::Mismatch));
     v.push(ev("hash-only(unknown)".into(), "", Some(pq(json!(1), json!(unknown))), Sem::HashOnly { hash: unknown.clone() }));
     v.push(ev("hash-only(\"def\")".into(), "", Some(pq(json!(1), json!("def"))), Sem::HashOnly { hash: "def".into() }));
@@ -489,6 +490,8 @@ fn setup(ndocs: usize) -> Setup {
 /// Replays `hist`, judging every event; returns the model, the outcomes, and the first discrepancy.
 struct Replay {
     model: Model,
+    /// the reference map before the last event
+    model_before: Model,
     outs: Vec<Out>,
     bad: Option<(usize, Vec<String>)>,
     world: World,
@@ -497,11 +500,13 @@ struct Replay {
 fn replay_hist(s: &Setup, kind: Kind, hist: &[u16], traces: &AtomicU64) -> Replay {
     let w = world(kind);
     let mut model = Model::new(kind);
+    let mut model_before = model.clone();
     let mut outs = Vec::new();
     let mut bad = None;
     traces.fetch_add(1, Ordering::Relaxed);
     for (k, ei) in hist.iter().enumerate() {
         let e = &s.alpha[*ei as usize];
+        model_before = model.clone();
         let got = exec(&w, &s.ds, &e.query, &e.payload);
         let al = allowed(&model, &s.ds, e);
         match al.iter().find(|a| matches(a, &got)) {
@@ -518,7 +523,7 @@ fn replay_hist(s: &Setup, kind: Kind, hist: &[u16], traces: &AtomicU64) -> Repla
         }
         outs.push(got);
     }
-    Replay { model, outs, bad, world: w }
+    Replay { model, model_before, outs, bad, world: w }
 }
 
 /// What a hash-only lookup of each probe hash answers in the state reached by `hist`
@@ -585,9 +590,7 @@ fn step(cx: &Cx, s: &Setup, kind: Kind, memo: &Memo, c: &Counters, hist: &[u16])
         }
         ok = false;
         let e = &s.alpha[hist[*k] as usize];
-        // model before the last event
-        let before = replay_model_before(s, kind, hist);
-        report(cx, s, kind, hist, classify(e, &r.outs[*k], &before), format!("{} answered {}; the statement admits {:?}\n  request {}", e.name, r.outs[*k].code(), al, request_json(&e.query, &e.payload)));
+        report(cx, s, kind, hist, classify(e, &r.outs[*k], &r.model_before), format!("{} answered {}; the statement admits {:?}\n  request {}", e.name, r.outs[*k].code(), al, request_json(&e.query, &e.payload)));
     }
     let pv = probe_vector(s, kind, hist, &c.traces);
     let contents = fifo_contents(s, &r.world);
@@ -626,7 +629,7 @@ fn step(cx: &Cx, s: &Setup, kind: Kind, memo: &Memo, c: &Counters, hist: &[u16])
             }
         }
         // a request that registers nothing must leave every later lookup (and the storage) as it was
-        let prev_model = replay_model_before(s, kind, hist);
+        let prev_model = r.model_before.clone();
         if prev_model == r.model {
             c.unchanged_checks.fetch_add(1, Ordering::Relaxed);
             let prev = memo.lock().unwrap().get(&(kind, hist[..hist.len() - 1].to_vec())).cloned();
@@ -673,12 +676,6 @@ fn step(cx: &Cx, s: &Setup, kind: Kind, memo: &Memo, c: &Counters, hist: &[u16])
     Some(Step { key, expand: ok })
 }
 
-/// The reference map before the last event (folded over admitted outcomes of a fresh replay of the prefix).
-fn replay_model_before(s: &Setup, kind: Kind, hist: &[u16]) -> Model {
-    let dummy = AtomicU64::new(0);
-    replay_hist(s, kind, &hist[..hist.len() - 1], &dummy).model
-}
-
 // ---------------------------------------------------------------------------------------------
 // flood: reach real evictions of LruCacheStorage
 // ---------------------------------------------------------------------------------------------
@@ -689,7 +686,7 @@ fn flood(cx: &Cx, s: &Setup, cap: usize, fillers: usize) -> Value {
     let d = &s.ds;
     let mut evicted = 0u64;
     let mut survived = 0u64;
-    let mut judge = |what: String, got: Out, allowed: Vec<Out>, hist: Vec<String>| {
+    let judge = |what: String, got: Out, allowed: Vec<Out>, hist: Vec<String>| {
         cx.eval();
         if !allowed.contains(&got) {
             let class = match &got {
@@ -787,7 +784,6 @@ pub fn run(cx: &Cx) {
     cx.extra("transitions_checked_for_unchanged_lookups", json!(c.unchanged_checks.load(Ordering::Relaxed)));
     cx.extra("lru_registered_not_found", json!(c.lru_registered_not_found.load(Ordering::Relaxed)));
     cx.extra("lru_flood", json!(floods));
-    let _ = BTreeSet::<u8>::new();
 }
 
 pub fn replay(case: &Value) -> String {
